@@ -31,4 +31,15 @@ pub mod log {
     impl<'a> Record<'a> {
         #[verifier::external_body] pub fn level(&self) -> (r: Level) ensures r == record_level(self) { unimplemented!() }
     }
+    // ---- the facade's global state, as far as C02 needs it ----
+    // "level l has been installed as the global maximum (during the current call)"
+    pub uninterp spec fn installed(l: LevelFilter) -> bool;
+    #[verifier::external_body] pub struct SetLoggerError { _p: () }
+    #[verifier::external_body] pub fn set_max_level(level: LevelFilter) ensures installed(level) { unimplemented!() }
+    // real signature: set_boxed_logger(Box<dyn Log>); the header is generic over the concrete logger so that the unit can
+    // state, as `ready_for_facade`, what must hold when a logger is handed to the facade
+    pub trait FacadeLogger { spec fn ready_for_facade(&self) -> bool; }
+    #[verifier::external_body] pub fn set_boxed_logger<L: FacadeLogger>(logger: Box<L>) -> (r: Result<(), SetLoggerError>)
+        requires logger.ready_for_facade()
+    { unimplemented!() }
 }
